@@ -361,6 +361,12 @@ func c02BidPerts(r *rand.Rand, b0 vfBid, other vfBid) []c02Pert {
 	add("tx-case", func(b *vfBid) { b.Tx = []byte(strings.ToUpper(string(b.Tx))) })
 	add("tx-empty", func(b *vfBid) { b.Tx = nil })
 	add("tx-comma", func(b *vfBid) { b.Tx = append(append(b.Tx, ','), b0.Tx...) })
+	add("tx-space-appended", func(b *vfBid) { b.Tx = append(b.Tx, ' ') })
+	add("tx-space-prepended", func(b *vfBid) { b.Tx = append([]byte(" "), b.Tx...) })
+	add("tx-newline-appended", func(b *vfBid) { b.Tx = append(b.Tx, '\n') })
+	add("tx-tab-prepended", func(b *vfBid) { b.Tx = append([]byte("\t"), b.Tx...) })
+	add("tx-nbsp-appended", func(b *vfBid) { b.Tx = append(b.Tx, "\u00a0"...) })
+	add("tx-emspace-prepended", func(b *vfBid) { b.Tx = append([]byte("\u2003"), b.Tx...) })
 	add("amount-plus-1", func(b *vfBid) { b.Amt = plus(big.NewInt(1)) })
 	add("amount-plus-2^256", func(b *vfBid) { b.Amt = plus(vfPow2(256)) })
 	add("amount-plus-2*2^256", func(b *vfBid) { b.Amt = plus(vfPow2(257)) })
